@@ -62,7 +62,8 @@ Proof.
       rewrite get_model_ensure. exact HR.
   - (* .inputs *)
     apply bind_ok in H as [ms [H1 H2]]. inversion H2; subst s'. rewrite st_models_set_ms. split; [|split; reflexivity].
-    cbn [step_g step_n s_cur s_merged set_ms set_nl]. apply (R_do_inputs _ _ _ _ _ _ _ H1 HR). intro Hn. apply Hc. exact Hn.
+    cbn [step_g step_n s_cur s_merged set_ms set_nl]. apply (R_do_inputs _ _ _ _ _ _ _ H1 HR). intro Hn.
+    destruct (Hc Hn) as [C _]. cbn [cond] in C. destruct C as [C2 C3]. split; [exact C2|split; [exact C3|rewrite Hn; exact Hcr]].
   - (* .outputs *)
     apply bind_ok in H as [ms [H1 H2]]. inversion H2; subst s'. rewrite st_models_set_ms. split; [|split; reflexivity].
     cbn [step_g step_n s_cur s_merged set_ms set_nl]. apply (R_do_outputs _ _ _ _ _ _ _ _ H1 HR eq_refl).
@@ -157,6 +158,9 @@ Lemma geq_do_input al cur ms tok ms' nm :
   do_input al cur (Ok ms) tok = Ok ms' -> nm <> cur -> geq (get_model nm ms) (get_model nm ms').
 Proof.
   intros H E. unfold do_input in H. cbn [bind] in H. destruct (pni tok) as [[p i]|]; [|discriminate]. cbn [bind] in H.
+  destruct (input_io cur p ms).
+  { inversion H; subst. eapply geq_trans; [|apply geq_grow_port].
+    rewrite get_model_upd_other; [apply geq_refl|intros x Hx; exact Hx|exact E]. }
   rewrite (get_model_upd_res_other _ _ _ _ nm H); [|intros; eapply connect_to_name; eauto|exact E].
   eapply geq_trans; [|apply geq_grow_port]. destruct (find_port _ _).
   - rewrite get_model_upd_other; [apply geq_refl|intros x Hx; exact Hx|exact E].
